@@ -142,9 +142,9 @@ def check_rand(A4, R, algo, params, seed, rank):
         return {"what": "output shapes", "U": U4.shape, "V": V4.shape, "s": s.shape}
     if not (np.all(np.isfinite(U4)) and np.all(np.isfinite(V4)) and np.all(np.isfinite(s))):
         return {"what": "non-finite output"}
-    if np.any(s < -1e-10 * sc) or np.any(np.diff(s) > 1e-9 * sc):
+    if not (np.all(s >= -1e-10 * sc) and np.all(np.diff(s) <= 1e-9 * sc)):
         return {"what": "values not non-negative non-increasing", "s": s}
-    if np.any(s > sv[:R] * (1 + 1e-8) + 1e-9 * sc):
+    if not np.all(s <= sv[:R] * (1 + 1e-8) + 1e-9 * sc):
         return {"what": "s_i exceeds sigma_i(A) (interlacing violated)", "s": s, "sigma": sv[:R]}
     eu, ev = rt.fro(rt.qmm(rt.qH(U4), U4) - rt.eye4(R)), rt.fro(rt.qmm(rt.qH(V4), V4) - rt.eye4(R))
     if not (eu <= 1e-8 and ev <= 1e-8):
@@ -240,6 +240,8 @@ def run(tier, seed):
     ]
     rep.trusted += ["qv engine", "z3 5.1", "library model"]
     deductive(rep, tier)
+    from ..frame import no_module_state
+    no_module_state(rep, P, [QS + "rand_qsvd", QS + "pass_eff_qsvd"])
     bounded(rep, tier, seed)
     return rep
 
